@@ -4,7 +4,8 @@ CONSTANTS MaxFiles,
           Product    \* BOOLEAN: label-file shapes x every environment entry kind and discard (FALSE: label shapes vary with one fixed environment side)
 FileShapes(i) == {[state |-> "missing-required", k |-> Unset, r |-> FALSE], [state |-> "missing-optional", k |-> Unset, r |-> FALSE],
                   [state |-> "present", k |-> Unset, r |-> FALSE], [state |-> "present", k |-> V("f" \o ToString(i)), r |-> FALSE],
-                  [state |-> "present", k |-> V("f" \o ToString(i)), r |-> TRUE], [state |-> "present", k |-> Unset, r |-> TRUE]}
+                  [state |-> "present", k |-> V("f" \o ToString(i)), r |-> TRUE], [state |-> "present", k |-> Unset, r |-> TRUE],
+                  [state |-> "present", k |-> V(""), r |-> FALSE]}      \* K= : set to the empty string, which is not the same as absent
 Files == UNION {{fs \in [1..n -> UNION {FileShapes(i) : i \in 1..3}] : \A i \in 1..n : fs[i] \in FileShapes(i)} : n \in 0..MaxFiles}
 LabelFiles == {<<>>, <<[state |-> "present", k |-> V("l1"), r |-> FALSE]>>,
                <<[state |-> "present", k |-> V("l1"), r |-> FALSE], [state |-> "present", k |-> V("l2"), r |-> FALSE]>>,
